@@ -1,7 +1,7 @@
 import RodbusModel.Model.Tls
 /-
   `tls` suite: expected outcome of a handshake of the grid (C09).
-  tls srv <min> <mode> <authz> <peer versions> <peer cert|none> [<expected ss cert>]
+  tls srv <min> <mode> <authz> <peer versions> <peer cert[+extra cert]|none> [<expected ss cert>]
   tls cli <min> <mode> <peer versions> <server cert> <server name|-> [<expected ss cert>]
 -/
 namespace Rodbus.Driver
@@ -17,6 +17,7 @@ def certOf (name : String) : Option Cert :=
   else if name = "srv_wrongca" then c (some 2) ["test.com"] true [] 4
   else if name = "srv_expired" then c (some 1) ["test.com"] false [] 5
   else if name = "srv_future" then c (some 1) ["test.com"] false [] 6
+  else if name = "srv_ip" then c (some 1) ["test.com", "127.0.0.1"] true [] 13
   else if name = "cli_operator" then c (some 1) ["client"] true ["operator"] 7
   else if name = "cli_viewer" then c (some 1) ["client"] true ["viewer"] 8
   else if name = "cli_norole" then c (some 1) ["client"] true [] 9
@@ -47,7 +48,9 @@ def runTls (tok : List String) : String × String :=
     match tok with
     | _ :: "srv" :: mn :: mode :: authz :: vers :: peer :: rest =>
       let m : Mode := if mode = "ca" then .authority 1 else .selfSigned (idOf (rest.headD "ss_b"))
-      match admitServer (minOf mn) m (authz = "1") (versOf vers) (certOf peer) with
+      -- `a+b`: certificate a followed by the extra certificate b in the Certificate message
+      let chain := (peer.splitOn "+").filterMap certOf
+      match admitServerChain (minOf mn) m (authz = "1") (versOf vers) chain with
       | none => "hs=fail ver=- reply=- role=- calls=0"
       | some a =>
         let role := match a.role with | some r => roleTok r | none => "-"
